@@ -453,9 +453,7 @@ func (c *compiler) evalIdentifier(node *ast.Identifier) (interface{}, error) {
 
 func (c *compiler) evalInfixExpression(node *ast.InfixExpression) (interface{}, error) {
 	lres, err := c.evalExpression(node.Left)
-	if err != nil &&
-		node.Operator != "==" && node.Operator != "!=" &&
-		node.Operator != "||" && node.Operator != "&&" {
+	if err != nil && !c.isTolerableOperandError(node.Operator, err) {
 		return nil, err
 	} // nil lres is acceptable only for '==', '!=', and logical operators
 
@@ -467,9 +465,7 @@ func (c *compiler) evalInfixExpression(node *ast.InfixExpression) (interface{}, 
 	}
 
 	rres, err := c.evalExpression(node.Right)
-	if err != nil &&
-		node.Operator != "==" && node.Operator != "!=" &&
-		node.Operator != "||" && node.Operator != "&&" {
+	if err != nil && !c.isTolerableOperandError(node.Operator, err) {
 		return nil, err
 	} // nil rres is acceptable only for '==', '!=', and logical operators
 
@@ -506,6 +502,19 @@ func (c *compiler) evalInfixExpression(node *ast.InfixExpression) (interface{}, 
 	}
 
 	return nil, fmt.Errorf("unable to operate (%s) on %T and %T ", node.Operator, lres, rres)
+}
+
+// isTolerableOperandError reports whether an error from evaluating an operand
+// may be treated as a nil operand: only an unknown identifier, and only for
+// '==', '!=', '&&' and '||'. Any other error (a failing helper, a bad index,
+// ...) must fail the expression.
+func (c *compiler) isTolerableOperandError(op string, err error) bool {
+	switch op {
+	case "==", "!=", "||", "&&":
+		_, ok := err.(*ErrUnknownIdentifier)
+		return ok
+	}
+	return false
 }
 
 func (c *compiler) arrayOperator(l interface{}, r interface{}, op string) (interface{}, error) {
